@@ -32,3 +32,35 @@ def res_step(state, n=4, b=2, h=2, tier='quick', timeout=600, mem_gb=8, exact=Fa
               tier=tier, timeout=timeout, mem_gb=mem_gb,
               statement='real htp_connp_RES_%s called from an arbitrary INV_A pre-state meets the state-function contract and its state-specific clause' % RES_STATES[state],
               bounds='chunk <= %d bytes (all values), carry buffer <= %d, pending header <= %d, all stub return codes' % (n, b, h), **kw)
+
+def chunked(side, sizes=(1, 2), tier='quick', timeout=300, mem_gb=4):
+    obs = []
+    for sz in sizes:
+        for ext in (0, 1):
+            n = 1 + (2 if ext else 0) + 2 + sz + 2 + 3 + 1
+            for cut in range(0, n):
+                d = {'MAXSZ': 3, 'SZ': sz, 'EXT': ext, 'CUT': cut, 'FM_CAP': n + 2, 'FA_CAP': n + 4}
+                obs.append(Ob('%s.chunked.sz%d%s.cut%d' % (side, sz, '.ext' if ext else '', cut), 'stream/%s_chunked.c' % side, units=STREAM_UNITS, models=STREAM_MODELS, remove=STREAM_RM, defines=d, unwind=n + 3,
+                              unwindset=['strlen.0:40'], restrict_by=(REQ_FP if side == 'req' else RES_FP), tier=tier, timeout=timeout, mem_gb=mem_gb, cost=5,
+                              statement='generated chunked body through the real %s chunked states + the driver buffering code, whole and split at this cut: delivered bytes == payload exactly once in order, message_len == wire bytes, following byte unread' % side.upper(),
+                              bounds='chunk size %d%s, payload bytes and the following byte symbolic (all values), cut at offset %d' % (sz, ' with extension' if ext else '', cut)))
+    return obs
+
+def cstr(sh):
+    return '"' + sh.replace('\\', '\\\\').replace('\r', '\\r').replace('\n', '\\n').replace('"', '\\"') + '"'
+def shname(sh):
+    return sh.replace('\r', 'R').replace('\n', 'N').replace(' ', '_').replace(':', 'c').replace('/', 's').replace('.', 'p')
+def split(side, start, shape, cuts=None, tier='quick', timeout=900, mem_gb=6, kfs=(), nostd=False, **kw):
+    n = len(shape); obs = []
+    sname = {1: 'HEADERS', 2: 'LINE', 3: 'FINALIZE'}[start]
+    for cut in (cuts if cuts is not None else range(1, n)):
+        d = {'SHAPE': cstr(shape), 'START': start, 'CUT': cut, 'FM_CAP': n + 2, 'FA_CAP': n + 4, 'LOGSZ': 6 * n + 24}
+        P = 'REQ' if side == 'req' else 'RES'
+        us = ['htp_connp_%s_HEADERS.0:%d' % (P, n + 3), 'htp_connp_%s_HEADERS.1:%d' % (P, n + 2), 'htp_connp_%s_HEADERS.2:%d' % (P, n + 2), 'htp_connp_%s_LINE.0:%d' % (P, n + 3), 'htp_connp_%s_FINALIZE.0:%d' % (P, n + 3),
+              'htp_connp_%s_FINALIZE.1:%d' % (P, n + 3), 'htp_connp_%s_FINALIZE.2:%d' % (P, n + 3), 'htp_chomp.0:4', 'harness.0:%d' % (n + 2), 'harness.1:%d' % (6 * n + 26), 'evbytes.0:%d' % (n + 4), 'feed.0:9', 'strlen.0:40', 'memchr.0:%d' % (n + 2)]
+        flags = ['--no-standard-checks'] if nostd else []
+        obs.append(Ob('%s.split.%s.%s.cut%d' % (side, sname, shname(shape), cut), 'stream/%s_split.c' % side, units=STREAM_UNITS, models=STREAM_MODELS, remove=STREAM_RM, defines=d, unwind=n + 4, unwindset=us,
+                      restrict_by=(REQ_FP if side == 'req' else RES_FP), flags=flags, tier=tier, timeout=timeout, mem_gb=mem_gb, kfs=list(kfs), cost=60,
+                      statement='merge lemma: %s_%s on this fragment delivered whole == delivered in two chunks cut at offset %d (event log: lines/headers handed on, body bytes, tx events, bytes left for the successor, flags)' % (P, sname, cut),
+                      bounds='fragment shape %r (x = any field byte, y = any byte), %d bytes, cut %d' % (shape, n, cut), **kw))
+    return obs
